@@ -132,7 +132,8 @@ def gen_reconf(rng, case):
         steps.append({"assign_max_concurrency": case["maxc"]})
     else:
         steps[0 if how == "step1" else 1]["max_concurrency"] = case["maxc"]
-    return dict(pre=pre, pre_maxc=pre_maxc, by_tag=by_tag, steps=steps)
+    # the DAG may already have been called before it is reconfigured (nothing of that call may survive)
+    return dict(pre=pre, pre_maxc=pre_maxc, by_tag=by_tag, steps=steps, call_first=rng.random() < 0.35)
 
 
 CORPUS = [
@@ -165,6 +166,16 @@ CORPUS = [
     # two flags taken from different items of one result
     dict(kind="sched", n=3, edges=[], attrs=[dict(priority=0, is_sequential=False, resource="thread")] * 3, flags={"1": ["node", 0, 0], "2": ["node", 0, 1]}, rets=[[1, 0], 1, 1], fails=[], maxc=1, is_async=False, mode="call"),
     dict(kind="sched", n=3, edges=[], attrs=[dict(priority=0, is_sequential=False, resource="thread"), dict(priority=1, is_sequential=False, resource="thread"), dict(priority=2, is_sequential=False, resource="thread")], flags={"1": ["node", 0, 0], "2": ["node", 0, 1]}, rets=[[1, 0], 1, 1], fails=[], maxc=2, is_async=True, mode="call"),
+    # a restricted run whose nodes all have own priority 0; the table still holds the whole DAG's compound priorities
+    dict(kind="sched", n=3, edges=[[1, 2]], attrs=[dict(priority=0, is_sequential=False, resource="thread"), dict(priority=0, is_sequential=False, resource="thread"), dict(priority=9, is_sequential=False, resource="thread")],
+         flags={}, rets=[1] * 3, fails=[], maxc=1, is_async=False, mode="exec", target=None, exclude=[2], root=None),
+    dict(kind="sched", n=3, edges=[[0, 2]], attrs=[dict(priority=0, is_sequential=False, resource="thread"), dict(priority=0, is_sequential=False, resource="thread"), dict(priority=9, is_sequential=False, resource="thread")],
+         flags={}, rets=[1] * 3, fails=[], maxc=1, is_async=True, mode="exec", target=None, exclude=[2], root=None),
+    # called once, then reconfigured (priorities swapped), then called again
+    dict(kind="sched", n=3, edges=[], attrs=[dict(priority=1, is_sequential=False, resource="thread"), dict(priority=2, is_sequential=False, resource="thread"), dict(priority=3, is_sequential=False, resource="thread")],
+         flags={}, rets=[1] * 3, fails=[], maxc=1, is_async=False, mode="call",
+         reconf=dict(pre=[dict(priority=3, is_sequential=False), dict(priority=2, is_sequential=False), dict(priority=1, is_sequential=False)], pre_maxc=1, by_tag=False, call_first=True,
+                     steps=[{"nodes": {"n0": {"priority": 1}, "n2": {"priority": 3}}}, {"nodes": {}}])),
     # a diamond of setup nodes set up through its root
     dict(kind="sched", n=5, edges=[[0, 1], [0, 2], [1, 3], [2, 3], [3, 4]], attrs=[dict(priority=0, is_sequential=False, resource="thread"), dict(priority=0, is_sequential=False, resource="thread"), dict(priority=-1, is_sequential=False, resource="thread"), dict(priority=5, is_sequential=False, resource="thread"), dict(priority=0, is_sequential=False, resource="thread")],
          flags={}, rets=[1] * 5, fails=[], maxc=2, is_async=False, mode="setup_root_then_call", setup=[0, 1, 2, 3], setup_roots=[0]),
@@ -240,6 +251,15 @@ def build(case):
     desc.__qualname__ = "desc"
     desc.__name__ = "desc"
     d = tawazi.dag(desc, max_concurrency=rc["pre_maxc"] if rc else case["maxc"], is_async=case["is_async"])
+    if rc and rc.get("call_first") and not case.get("setup"):
+        try:
+            if case["is_async"]:
+                import asyncio
+                asyncio.run(d())
+            else:
+                d()
+        except BaseException:  # noqa: BLE001
+            pass
     if rc:
         for st in rc["steps"]:
             if "assign_max_concurrency" in st:
